@@ -273,6 +273,12 @@ async def run(ctx):
             check_classification(ctx, key)
         ctx.sample({"classified": "every integer 0..3000 plus leading-zero / huge / package / non-numeric spellings"}, cls="classification")
     # ---- extraction -----------------------------------------------------------------------------------------------
+    if ctx.shard == 0:
+        # fixed cases that every run must contain whatever the seed: unknown package, out-of-range keys, nested package, all flags
+        for s, resolve, replace in [("[1]U[4711P]", True, False), ("Muss [4711P0..1] O [2]", True, True), ("[1]U[4711P]", False, False), ("[0]U[1]", False, False), ("[1]U[1000]", False, True), ("[2500]", False, False),
+                                    ("[3P]U[UB3]", True, True), ("[3P]U[UB3]", True, False), ("[3P]U[UB3]", False, True), ("[123P][10P]", True, True), ("[499]U[500]U[900]U[901]U[999]U[2000]U[2499]", False, False)]:
+            await check_extraction(ctx, {"s": s, "resolve": resolve, "replace": replace})
+            ctx.count("extract_cases")
     for i in range(ctx.budget(700, 60_000)):
         toks = G.gen_tokens(rng, max_items=rng.randint(1, 7), depth=2, atom=atom_c18)
         s = G.join_tokens(toks, rng)
